@@ -181,6 +181,8 @@ func TestVerifBounded(t *testing.T) {
 		verifFilterSem(t, tier)
 	case "filtersyntax":
 		verifFilterSyntax(t, tier)
+	case "keys":
+		verifKeys(t, tier)
 	default:
 		t.Skip("unknown bounded check " + which)
 	}
@@ -817,4 +819,354 @@ func verifFilterSyntax(t *testing.T, tier string) {
 	}
 	rec(make([]byte, 0, maxLen))
 	fmt.Printf("BOUNDED-RESULT {\"cases\": %d, \"failures\": %d, \"bound\": \"26x26 key/value strings written as quoted Go literals in 5 term positions; unquoted words without special characters; %d filter and %d projection texts that must be rejected; every text of length <= %d over %q for panics, hangs and error offsets\", \"exhaustive\": false}\n", n, fails, len(rejects), len(projRejects), maxLen, alpha)
+}
+
+// ---------------------------------------------------------------------------
+// C08: keys identify projected tuples; projections plus residue lose nothing.
+
+// verifRemaining: the full name with the parts of the excluded sub-name keys
+// deleted and, if .name is excluded, the base name replaced by "*".
+func verifRemaining(name []byte, excl map[string]bool) string {
+	base, parts := verifRefParts(name)
+	var out []byte
+	if excl[".name"] {
+		out = append(out, '*')
+	} else {
+		out = append(out, base...)
+	}
+	for _, p := range parts {
+		drop := false
+		if p[0] == '-' {
+			drop = excl["/gomaxprocs"]
+		} else {
+			k := string(p)
+			if i := strings.IndexByte(k, '='); i >= 0 {
+				drop = excl[k[:i]]
+			}
+		}
+		if !drop {
+			out = append(out, p...)
+		}
+	}
+	return string(out)
+}
+
+type verifProjRef struct {
+	fields []string // field keys of this projection in expression order
+}
+
+// verifRefVals: field name -> value (empty values dropped) that projection
+// fields `fields` extract from r, given the parser-wide specific keys.
+func verifRefVals(fields []string, r *benchfmt.Result, specific map[string]bool) map[string]string {
+	out := map[string]string{}
+	put := func(k, v string) {
+		if v != "" {
+			out[k] = v
+		}
+	}
+	for _, f := range fields {
+		switch {
+		case f == ".config":
+			for _, c := range r.Config {
+				if c.File && !specific[c.Key] {
+					put("cfg:"+c.Key, string(c.Value))
+				}
+			}
+		case f == ".fullname":
+			put(f, verifRemaining(r.Name, specific))
+		case f == ".name" || strings.HasPrefix(f, "/"):
+			put(f, string(verifRefExtract(r.Name, f)))
+		default:
+			for _, c := range r.Config {
+				if c.Key == f {
+					put(f, string(c.Value))
+				}
+			}
+		}
+	}
+	return out
+}
+
+func verifMapsEqual(a, b map[string]string) bool {
+	if len(a) != len(b) {
+		return false
+	}
+	for k, v := range a {
+		if b[k] != v {
+			return false
+		}
+	}
+	return true
+}
+
+func verifPermutations(n int) [][]int {
+	if n == 0 {
+		return [][]int{{}}
+	}
+	var out [][]int
+	for _, p := range verifPermutations(n - 1) {
+		for i := 0; i <= len(p); i++ {
+			q := append(append(append([]int{}, p[:i]...), n-1), p[i:]...)
+			out = append(out, q)
+		}
+	}
+	return out
+}
+
+func verifKeys(t *testing.T, tier string) {
+	n, fails := 0, 0
+	bad := func(f string, args ...any) {
+		fails++
+		if fails <= 12 {
+			t.Errorf("REPLAY-FAIL "+f, args...)
+		}
+	}
+	seed := uint64(1)
+	if s := os.Getenv("VERIF_SEED"); s != "" {
+		if v, err := strconv.ParseUint(s, 10, 64); err == nil {
+			seed = v
+		}
+	}
+	rnd := func(k int) int {
+		seed = seed*6364136223846793005 + 1442695040888963407
+		return int((seed >> 33) % uint64(k))
+	}
+	sets := [][]string{
+		{".config"},
+		{"/size"},
+		{"/size", ".fullname"},
+		{".name", "/size"},
+		{"goos", ".config"},
+		{".config", "goos"},
+		{"/gomaxprocs", ".fullname"},
+		{"/a", "/size,.name"},
+		{"note", "/sizeclass", ".fullname,.config"},
+		{".fullname", "/size", "/abc"},
+		{"pkg,goos"},
+	}
+	streams := 60
+	if tier == "thorough" {
+		streams = 600
+	}
+	bases := []string{"X", "Y"}
+	partPool := [][]string{
+		{"", "/size=1", "/size=2", "/size="},
+		{"", "/sizeclass=3", "/sizeclass=4"},
+		{"", "/abc", "/a=1", "/a=2"},
+		{"", "-8", "-4"},
+	}
+	cfgKeys := []string{"goos", "note", "pkg", "runner"}
+	cfgVals := []string{"a", "b", ""}
+	units := []string{"ns/op", "B/op", "allocs/op"}
+	genResult := func(stage int) *benchfmt.Result {
+		name := bases[rnd(2)]
+		for _, pp := range partPool {
+			name += pp[rnd(len(pp))]
+		}
+		r := &benchfmt.Result{Name: benchfmt.Name(name)}
+		// configuration keys appear gradually: stage limits how many exist
+		for i, k := range cfgKeys {
+			if i >= stage {
+				break
+			}
+			switch rnd(4) {
+			case 0: // absent
+			case 1, 2:
+				r.Config = append(r.Config, benchfmt.Config{Key: k, Value: []byte(cfgVals[rnd(len(cfgVals))]), File: true})
+			case 3: // internal (non-file) configuration
+				r.Config = append(r.Config, benchfmt.Config{Key: k, Value: []byte(cfgVals[rnd(2)] + "i"), File: false})
+			}
+		}
+		nv := 1 + rnd(2)
+		for i := 0; i < nv; i++ {
+			r.Values = append(r.Values, benchfmt.Value{Value: float64(i), Unit: units[rnd(len(units))]})
+		}
+		return r
+	}
+	for _, set := range sets {
+		specific := map[string]bool{}
+		var refFields [][]string
+		for _, expr := range set {
+			fs := strings.Split(expr, ",")
+			refFields = append(refFields, fs)
+			for _, f := range fs {
+				if f != ".config" && f != ".fullname" {
+					specific[f] = true
+				}
+			}
+		}
+		haveConfig, haveFull := false, false
+		for _, fs := range refFields {
+			for _, f := range fs {
+				haveConfig = haveConfig || f == ".config"
+				haveFull = haveFull || f == ".fullname"
+			}
+		}
+		var residueFields []string
+		if !haveConfig {
+			residueFields = append(residueFields, ".config")
+		}
+		if !haveFull {
+			residueFields = append(residueFields, ".fullname")
+		}
+		for _, perm := range verifPermutations(len(set)) {
+			for si := 0; si < streams; si++ {
+				var pp ProjectionParser
+				projs := make([]*Projection, len(set))
+				withUnit := rnd(3) == 0
+				var unitField *Field
+				for _, pi := range perm {
+					var err error
+					if withUnit && pi == 0 {
+						projs[pi], unitField, err = pp.ParseWithUnit(set[pi], nil)
+					} else {
+						projs[pi], err = pp.Parse(set[pi], nil)
+					}
+					if err != nil {
+						t.Fatalf("Parse(%q): %v", set[pi], err)
+					}
+				}
+				residue := pp.Residue()
+				nres := 5 + rnd(5)
+				var results []*benchfmt.Result
+				var keys [][]Key    // per result, per projection (+ residue last)
+				var ukeys [][]Key   // per result: ProjectValues keys of projection 0 when withUnit
+				for ri := 0; ri < nres; ri++ {
+					r := genResult(ri * (len(cfgKeys) + 1) / nres)
+					results = append(results, r)
+					var ks []Key
+					for pi, p := range projs {
+						if withUnit && pi == 0 {
+							uk := p.ProjectValues(r)
+							ukeys = append(ukeys, uk)
+							ks = append(ks, Key{})
+							continue
+						}
+						ks = append(ks, p.Project(r))
+					}
+					ks = append(ks, residue.Project(r))
+					keys = append(keys, ks)
+				}
+				desc := func(i int) string {
+					r := results[i]
+					s := string(r.Name)
+					for _, c := range r.Config {
+						s += fmt.Sprintf(" %s=%q(file=%v)", c.Key, c.Value, c.File)
+					}
+					return s
+				}
+				allFields := append(append([][]string{}, refFields...), residueFields)
+				// 1. key identity per projection, across field growth
+				for pi := range allFields {
+					if withUnit && pi == 0 {
+						continue
+					}
+					for i := range results {
+						vi := verifRefVals(allFields[pi], results[i], specific)
+						for j := i + 1; j < len(results); j++ {
+							n++
+							vj := verifRefVals(allFields[pi], results[j], specific)
+							same := verifMapsEqual(vi, vj)
+							if (keys[i][pi] == keys[j][pi]) != same {
+								bad("set %q order %v projection %d %v: keys equal=%v but projected values equal=%v for results #%d [%s] (%v) and #%d [%s] (%v)", set, perm, pi, allFields[pi], keys[i][pi] == keys[j][pi], same, i, desc(i), vi, j, desc(j), vj)
+							}
+						}
+					}
+				}
+				// 2. a key returns exactly the extracted values
+				for pi := range allFields {
+					if withUnit && pi == 0 {
+						continue
+					}
+					var p *Projection
+					if pi < len(projs) {
+						p = projs[pi]
+					} else {
+						p = residue
+					}
+					for i := range results {
+						n++
+						want := verifRefVals(allFields[pi], results[i], specific)
+						got := map[string]string{}
+						var walk func(prefix string, fs []*Field)
+						walk = func(prefix string, fs []*Field) {
+							for _, f := range fs {
+								if f.IsTuple {
+									walk("cfg:", f.Sub)
+									continue
+								}
+								if v := keys[i][pi].Get(f); v != "" {
+									got[prefix+f.Name] = v
+								}
+							}
+						}
+						walk("", p.Fields())
+						if !verifMapsEqual(got, want) {
+							bad("set %q order %v projection %d: key of [%s] holds %v, extracted values are %v", set, perm, pi, desc(i), got, want)
+						}
+					}
+				}
+				// 3. per-measurement keys vary only on .unit
+				if withUnit {
+					for i := range results {
+						vi := verifRefVals(allFields[0], results[i], specific)
+						for a := range results[i].Values {
+							if g := ukeys[i][a].Get(unitField); g != results[i].Values[a].Unit {
+								bad("set %q: unit key of [%s] value %d has .unit %q, want %q", set, desc(i), a, g, results[i].Values[a].Unit)
+							}
+							for j := i; j < len(results); j++ {
+								vj := verifRefVals(allFields[0], results[j], specific)
+								for b := range results[j].Values {
+									n++
+									same := verifMapsEqual(vi, vj) && results[i].Values[a].Unit == results[j].Values[b].Unit
+									if (ukeys[i][a] == ukeys[j][b]) != same {
+										bad("set %q order %v: per-unit keys equal=%v but values+unit equal=%v for [%s]#%d and [%s]#%d", set, perm, ukeys[i][a] == ukeys[j][b], same, desc(i), a, desc(j), b)
+									}
+								}
+							}
+						}
+					}
+				}
+				// 4. projections + residue lose nothing
+				if !withUnit {
+					for i := range results {
+						for j := i + 1; j < len(results); j++ {
+							n++
+							agree := true
+							for pi := range keys[i] {
+								if keys[i][pi] != keys[j][pi] {
+									agree = false
+								}
+							}
+							ri, rj := results[i], results[j]
+							ref := verifRemaining(ri.Name, specific) == verifRemaining(rj.Name, specific)
+							for k := range specific {
+								if k == ".name" || strings.HasPrefix(k, "/") {
+									if string(verifRefExtract(ri.Name, k)) != string(verifRefExtract(rj.Name, k)) {
+										ref = false
+									}
+								}
+							}
+							cfgOf := func(r *benchfmt.Result) map[string]string {
+								m := map[string]string{}
+								for _, c := range r.Config {
+									if (c.File || specific[c.Key]) && len(c.Value) > 0 {
+										m[c.Key] = string(c.Value)
+									}
+								}
+								return m
+							}
+							if !verifMapsEqual(cfgOf(ri), cfgOf(rj)) {
+								ref = false
+							}
+							if agree != ref {
+								bad("set %q order %v: results [%s] and [%s] agree on all keys=%v but same configuration/name parts=%v", set, perm, desc(i), desc(j), agree, ref)
+							}
+						}
+					}
+				}
+			}
+		}
+	}
+	fmt.Printf("BOUNDED-RESULT {\"cases\": %d, \"failures\": %d, \"bound\": \"%d projection sets x all parse orders x %d random streams of 5-9 results (4 config keys appearing gradually, file and internal, 4 sub-name slots, 3 units)\", \"exhaustive\": false}\n", n, fails, len(sets), streams)
 }
